@@ -132,7 +132,9 @@ Section Meta.
     | KUnit3 =>
         let co := dot3 x c in
         let s2 := nsub O (n1 O) (nmul O co co) in
-        if nltb O (n0 O) co && nltb O s2 tiny28 then [n0 O; n0 O; n0 O]
+        (* coincident or exactly opposite vectors (sin^2 < 1e-28): the null vector, as colvarvalue::dist2_grad returns
+           since the repair of the infinite force between opposite unit vectors (C18) *)
+        if nltb O s2 tiny28 then [n0 O; n0 O; n0 O]
         else scale3 (ndiv O (nmul O (nmul O (nofZ O 2) (nacos O co)) (nneg O (n1 O))) (nsqrt O s2)) c
     | KQuat =>                                                       (* cvm::quaternion::dist2_grad *)
         let co := dot4 x c in
